@@ -307,7 +307,8 @@ spif_bool_t
 spif_mbuff_done(spif_mbuff_t self)
 {
     ASSERT_RVAL(!SPIF_MBUFF_ISNULL(self), FALSE);
-    if (self->size) {
+    if (self->size || self->buff) {
+        /* (A zero-length buffer still owns the block malloc(0) gave it.) */
         FREE(self->buff);
         self->len = 0;
         self->size = 0;
